@@ -156,12 +156,12 @@ func checkC07(c c07Case, ctx *vCtx) *vFailure {
 	quantity := vReadValName(run("report", "quantity").Stdout)
 	csvLog, err := vReadCSV(run("csv", "log").Stdout)
 	if err != nil {
-		vFault("csv log unreadable: %v", err)
+		vViolate("C07: csv log is not readable CSV: %v", err)
 	}
 	elemTotal := vReadValName(run("report", "element-total", X).Stdout)
 	csvRes, err := vReadCSV(run("csv", "database-resolved").Stdout)
 	if err != nil {
-		vFault("csv database-resolved unreadable: %v", err)
+		vViolate("C07: csv database-resolved is not readable CSV: %v", err)
 	}
 	unresolved := vLines(run("report", "unresolved").Stdout)
 	byFood := vReadValName(run("reg", "-s", X, "-g").Stdout)
